@@ -1321,6 +1321,10 @@ func c03(c *Ctx) {
 		}
 	})
 
+	c.Rule("C03.R8", "a line that ends without an error has produced a metric or an event: Lexer.Run and the parser dereference the result on that path without a nil test, so a state that stops lexing without storing an error (before the metric / event was allocated) is a nil dereference in the parser goroutine - C02.R5's accept-exit obligations, shared (only the two attribute states may end a line without an error)", 5, func(r *Rule) {
+		importObligations(c, r, c02, "C02.R5", nil)
+	})
+
 	c.Rule("C03.R3", "every request is answered with exactly one status and errors dispatch nothing (C14.R5)", 10, func(r *Rule) {
 		sub := &Ctx{W: w, Prop: c.Prop, Tier: c.Tier, known: c.known, Only: "C14.R5"}
 		c14(sub)
